@@ -9,6 +9,26 @@ import (
 	"testing"
 )
 
+// addVariants seeds the corpus with every truncation of a valid input, every single-byte deletion, and every
+// byte replaced by 'x', a blank, a line feed and a NUL: the quick tier runs the seed corpus only, so the
+// boundary cases of each hand-written parser are always exercised
+func addVariants(f *testing.F, valid []byte) {
+	f.Add(valid)
+	for i := 0; i <= len(valid); i++ {
+		f.Add(append([]byte{}, valid[:i]...))
+	}
+	for i := 0; i < len(valid); i++ {
+		f.Add(append(append([]byte{}, valid[:i]...), valid[i+1:]...))
+		for _, c := range []byte{'x', ' ', '\n', 0} {
+			if valid[i] != c {
+				v := append([]byte{}, valid...)
+				v[i] = c
+				f.Add(v)
+			}
+		}
+	}
+}
+
 func mkRoot(t testing.TB) string {
 	root := filepath.Join(t.TempDir(), ".goit")
 	for _, d := range []string{"objects", "refs/heads", "logs"} {
@@ -23,6 +43,7 @@ func FuzzIndexRead(f *testing.F) {
 	f.Add([]byte("DIRC\x00\x00\x00\x01\x00\x00\x00\x00"))
 	f.Add([]byte("DIRC\x00\x00\x00\x01\xff\xff\xff\xff"))
 	f.Add([]byte{})
+	addVariants(f, []byte("DIRC\x00\x00\x00\x01\x00\x00\x00\x02"+"\x11\x11\x11\x11\x11\x11\x11\x11\x11\x11\x11\x11\x11\x11\x11\x11\x11\x11\x11\x11"+"\x00\x01a"+"\x22\x22\x22\x22\x22\x22\x22\x22\x22\x22\x22\x22\x22\x22\x22\x22\x22\x22\x22\x22"+"\x00\x03d/x"))
 	f.Fuzz(func(t *testing.T, b []byte) {
 		root := mkRoot(t)
 		if err := os.WriteFile(filepath.Join(root, "index"), b, 0o644); err != nil {
@@ -49,6 +70,7 @@ func FuzzNewHead(f *testing.F) {
 	f.Add([]byte("ref: refs/heads/main"))
 	f.Add([]byte("ref: "))
 	f.Add([]byte("ref: refs/heads/"))
+	addVariants(f, []byte("ref: refs/heads/main"))
 	f.Fuzz(func(t *testing.T, b []byte) {
 		root := mkRoot(t)
 		if err := os.WriteFile(filepath.Join(root, "HEAD"), b, 0o644); err != nil {
@@ -61,6 +83,7 @@ func FuzzNewHead(f *testing.F) {
 func FuzzBranchFile(f *testing.F) {
 	f.Add([]byte("0123456789012345678901234567890123456789"))
 	f.Add([]byte(""))
+	addVariants(f, []byte("0123456789abcdef0123456789abcdef01234567"))
 	f.Fuzz(func(t *testing.T, b []byte) {
 		root := mkRoot(t)
 		if err := os.WriteFile(filepath.Join(root, "refs", "heads", "main"), b, 0o644); err != nil {
@@ -79,6 +102,7 @@ func FuzzConfigLoad(f *testing.F) {
 	f.Add([]byte("\n"))
 	f.Add([]byte("k = v\n"))
 	f.Add([]byte("[]\n"))
+	addVariants(f, []byte("[user]\n\tname = a b\n\temail = a@b.cc\n[core]\n\tk = v\n"))
 	f.Fuzz(func(t *testing.T, b []byte) {
 		root := mkRoot(t)
 		t.Setenv("HOME", t.TempDir())
@@ -99,6 +123,7 @@ func FuzzReflogLoad(f *testing.F) {
 	z := "0000000000000000000000000000000000000000"
 	f.Add([]byte(z + " " + z + " n <e> 1 +0000\tcommit: m\n"))
 	f.Add([]byte("x y z"))
+	addVariants(f, []byte(z+" "+"0123456789abcdef0123456789abcdef01234567"+" a b <a@b.cc> 1 +0000\tcommit: m n\n"+"0123456789abcdef0123456789abcdef01234567"+" "+z+" a b <a@b.cc> 2 -0330\tcheckout: moving from main to dev\n"))
 	f.Fuzz(func(t *testing.T, b []byte) {
 		root := mkRoot(t)
 		if err := os.WriteFile(filepath.Join(root, "logs", "HEAD"), b, 0o644); err != nil {
